@@ -6,6 +6,8 @@
 #define ALN_PARAM_IMPORT
 #include "aln_param.h"
 
+#define ALN_MAX_GAP_PENALTY 1e9F
+
 static int set_subm_gaps_CorBLOSUM66_13plus(struct aln_param *ap);
 static int set_subm_gaps_gon250(struct aln_param* ap);
 static int set_subm_gaps_DNA(struct aln_param *ap);
@@ -84,6 +86,12 @@ int aln_param_init(struct aln_param **aln_param,int biotype , int n_threads, int
 
         if(gpe >= 0.0){
                 ap->tgpe = tgpe;
+        }
+        /* The dynamic programming runs in single precision with -FLT_MAX as
+           "impossible": penalties near FLT_MAX overflow to infinity and leave
+           the traceback undefined. */
+        if(!(ap->gpo <= ALN_MAX_GAP_PENALTY) || !(ap->gpe <= ALN_MAX_GAP_PENALTY) || !(ap->tgpe <= ALN_MAX_GAP_PENALTY)){
+                ERROR_MSG("Gap penalties have to be smaller than %g.", ALN_MAX_GAP_PENALTY);
         }
         /* LOG_MSG("%f %f %f", ap->gpo, ap->gpe, ap->tgpe); */
         *aln_param = ap;
